@@ -65,4 +65,12 @@ theorem hasPerm_translated (attached : Option (List String)) (defaults : List St
 example : (run (authExt (some [])) prog_auth_HasPerm (hasPermEnv ["read"] "read")).val? = some (.bool false) := by
   simpa [Auth.hasPerm, Auth.effective] using hasPerm_translated (some []) ["read"] "read"
 
+/-- C19 over the regenerated code: `HasPerm` answers true iff the permission is in the caller's effective set — what
+    was attached, even if empty, otherwise the defaults. -/
+theorem C19_hasPerm_iff (attached : Option (List String)) (defaults : List String) (p : String) :
+    (run (authExt attached) prog_auth_HasPerm (hasPermEnv defaults p)).val? = some (.bool true) ↔
+      p ∈ Auth.effective attached defaults := by
+  rw [hasPerm_translated]
+  simp [Auth.hasPerm]
+
 end Jrpc.Trans
